@@ -4,12 +4,7 @@ from props import _pipeline
 from pyvc.checklib import Check
 from pyvc.engine import Engine
 
-META = {
-    "level": "other",
-    "technique": "runtime evaluation of the effect contracts of DESIGN 3.0 at the choke points of the real code (Rule.fix, Rule.analyze, vhdlFile.update, rule_list.fix) over a finite universe of inputs: a bounded stand-in, not a proof",
-    "text": "BOUNDED ONLY for this property at present: " + _pipeline.WHAT["C03"] + ". The quantifier over all inputs and all ~960 rule bodies is not discharged deductively; see DESIGN.md for which kernel functions of the mechanism are under contract.",
-    "note": "Universe: repository fixtures x 3 configurations + 2 input variants + generated micro designs. Known findings of the unchanged tree are listed in known_findings.json by (rule, file, configuration, variant).",
-}
+META = _pipeline.meta('C03')
 
 DEDUCTIVE = ['vsg.rules.token_case.token_case._fix_violation', 'vsg.rules.whitespace_between_tokens.Rule._fix_violation', 'vsg.rules.token_indent.token_indent._fix_violation', 'vsg.rule.Rule.fix', 'vsg.rule_list.rule_list.fix', 'vsg.rule_list.filter_out_disabled_rules']
 
